@@ -171,6 +171,56 @@ func buildOnce(files scriggo.Files, name string, isProgram bool) kit.Outcome {
 	return o
 }
 
+// tableSource generates a program or template with n distinct entries of one kind.
+func tableSource(kind string, n int) (scriggo.Files, string, bool) {
+	var b strings.Builder
+	switch kind {
+	case "texts":
+		for i := 0; i < n; i++ {
+			fmt.Fprintf(&b, "text %d {{ %d }}\n", i, i)
+		}
+		return scriggo.Files{"index.html": []byte(b.String())}, "index.html", false
+	case "macros":
+		for i := 0; i < n; i++ {
+			fmt.Fprintf(&b, "{%% macro M%d %%}m%d{%% end %%}", i, i)
+		}
+		for i := 0; i < n; i++ {
+			fmt.Fprintf(&b, "{{ M%d() }}", i)
+		}
+		return scriggo.Files{"index.html": []byte(b.String())}, "index.html", false
+	}
+	b.WriteString("package main\n")
+	switch kind {
+	case "types":
+		for i := 0; i < n; i++ {
+			fmt.Fprintf(&b, "type T%d struct{ F%d int }\n", i, i)
+		}
+	case "functions":
+		for i := 0; i < n; i++ {
+			fmt.Fprintf(&b, "func f%d() int { return %d }\n", i, i)
+		}
+	}
+	b.WriteString("func main() {\n\ts := 0\n\tvar e interface{}\n\t_ = e\n")
+	for i := 0; i < n; i++ {
+		switch kind {
+		case "strings":
+			fmt.Fprintf(&b, "\ts += len(\"str-%d\")\n", i)
+		case "ints":
+			fmt.Fprintf(&b, "\ts += %d\n", 1000+i*7)
+		case "floats":
+			fmt.Fprintf(&b, "\ts += int(%d.5 * float64(s))\n", i)
+		case "generals":
+			fmt.Fprintf(&b, "\te = %d + %di\n", i, i+1)
+		case "types":
+			fmt.Fprintf(&b, "\te = T%d{%d}\n", i, i)
+		case "functions":
+			fmt.Fprintf(&b, "\ts += f%d()\n", i)
+		}
+	}
+	b.WriteString("\tprintln(s)\n}\n")
+	return scriggo.Files{"main.go": []byte(b.String())}, "", true
+}
+
 type corpusFile struct {
 	rel     string
 	data    []byte
@@ -248,6 +298,25 @@ func spaces(tier string) []kit.Space {
 			},
 		})
 	}
+	// Disassemble of artefacts that are rich in one kind of table entry: n
+	// distinct string / int / float / general constants, types, functions,
+	// text chunks, for n around the sign and size boundaries of the operand
+	// encodings (operands are int8/uint8 in the instructions).
+	kinds := []string{"strings", "ints", "floats", "generals", "types", "functions", "texts", "macros"}
+	counts := []int{1, 2, 126, 127, 128, 129, 130, 200, 254, 255, 256, 257}
+	sps = append(sps, kit.Space{
+		Name: "disassemble.table-sizes",
+		Size: uint64(len(kinds) * len(counts)),
+		Eval: func(i uint64) kit.Outcome {
+			files, name, prog := tableSource(kinds[int(i)/len(counts)], counts[int(i)%len(counts)])
+			o := buildOnce(files, name, prog)
+			o.Ops = 1
+			return o
+		},
+		Describe: func(i uint64) any {
+			return map[string]any{"kind": kinds[int(i)/len(counts)], "n": counts[int(i)%len(counts)]}
+		},
+	})
 	corpus := loadCorpus(maxCorpus)
 	// truncations: one case per (file, offset)
 	var offs []uint64
